@@ -524,8 +524,10 @@ class ElementList(MutableSequence):
         del self.list[index]
 
     def __setitem__(self, index, value):
-        child_name = self.list[index].name
-        self.set(child_name, value, index)
+        child = self.list[index]
+        child_name = child.name
+        # set() addresses a child by its position among the children having the same name
+        self.set(child_name, value, self.indexes[child_name].index(child))
 
     def __str__(self):
         return str(self.list)
